@@ -115,7 +115,21 @@ pub fn gen_valid(rng: &mut Rng) -> Stamp {
         2 => Some((*rng.pick(&['+', '-']), *rng.pick(&[23u32, 12, 14, 1, 5]), *rng.pick(&[59u32, 0, 30, 45]))),
         _ => Some((*rng.pick(&['+', '-']), rng.below(24) as u32, rng.below(60) as u32)),
     };
-    Stamp { year, month, day, hour, minute, second, frac, offset }
+    let mut st = Stamp { year, month, day, hour, minute, second, frac, offset };
+    if rng.chance(1, 6) {
+        // local time chosen so that the UTC instant is exactly midnight (or one second either side):
+        // the day carry of "local − offset" is decided by equality
+        let off = st.offset_secs() as i64;
+        let utc_tod: i64 = *rng.pick(&[0i64, 0, 0, 1, 86_399]);
+        let local = (utc_tod + off).rem_euclid(86_400);
+        st.hour = (local / 3600) as u32;
+        st.minute = (local / 60 % 60) as u32;
+        st.second = (local % 60) as u32;
+        if rng.chance(1, 2) {
+            st.frac = String::new();
+        }
+    }
+    st
 }
 
 /// One out-of-range field; returns the mutated stamp and the name of the mutation.
